@@ -69,7 +69,9 @@ def cmp_array(name, got, kind, cname, pk, X, Y, nl, probs):
 
 def check_panel_fields(led, replay=None):
     it, calls = py_panel.mk()
-    for geom, form in itertools.product(('plate', 'cpanel'), ('default-grid', 'user-2d', 'user-2d-fortran', 'list')):
+    for geom, form in itertools.product(('plate', 'cpanel', 'kpanel'), ('default-grid', 'user-2d', 'user-2d-fortran', 'list')):
+        if geom == 'kpanel' and form not in ('default-grid', 'list'):
+            continue
         for method, opts in (('uvw', {}), ('strain', {'NLterms': True}), ('strain', {'NLterms': False}),
                              ('stress', {'NLterms': True}), ('stress', {'NLterms': False}), ('stress', {'NLterms': False, 'F': 'given'})):
             func = PF + method
@@ -97,6 +99,9 @@ def check_panel_fields(led, replay=None):
             for path, out in it.explore(run):
                 name = '%s[%s]' % (func, tag)
                 if out[0] != 'return':
+                    if geom == 'kpanel' and method != 'uvw' and out[1].tname == 'NotImplementedError':
+                        # clt_bardell_field.fstrain refuses a cone (alpharad != 0) explicitly: nothing is reported
+                        continue
                     report(led, name + '/no-exception', func, ['raises %s%s' % (out[1].tname, tuple(str(a)[:80] for a in out[1].eargs))],
                            replay_strided if out[1].tname == 'KernelPrecondition' else replay, signature='raise:' + out[1].tname)
                     continue
